@@ -94,6 +94,7 @@ type QGenOpts struct {
 	Sub      bool
 	Shift    bool
 	Where    bool
+	NoPeriod bool // no period()/stride() (results must not depend on the clock)
 	NoConst  bool // no derived fields with constant operands (finding C01-gap-row-const)
 	// DataSpan is how far back (ns, positive) the data reaches from Base, for
 	// window generation.
@@ -254,14 +255,14 @@ func genQuery(r *Rng, t *TableDef, u *Universe, o QGenOpts) *QSpec {
 		if r.Bool(0.1) && q.GroupBy[0] != "*" && q.GroupBy[0] != "_" {
 			q.GroupBy = append(q.GroupBy, "CONCAT('|', da, db) AS dx")
 		}
-		if r.Bool(0.5) {
+		if r.Bool(0.5) && !o.NoPeriod {
 			k := PickOne(r, []int{1, 2, 3, 5, 7, 30, 600})
 			q.GroupBy = append(q.GroupBy, "period("+durSQL(res*time.Duration(k))+")")
 		}
 		if o.Crosstab && r.Bool(0.12) {
 			q.GroupBy = append(q.GroupBy, PickOne(r, []string{"CROSSTAB(da)", "CROSSTABT(da)", "CROSSTAB(da, db)"}))
 		}
-		if r.Bool(0.06) {
+		if r.Bool(0.06) && !o.NoPeriod {
 			q.GroupBy = append(q.GroupBy, "stride("+durSQL(res*time.Duration(PickOne(r, []int{2, 4})))+")")
 		}
 	}
